@@ -15,12 +15,12 @@ import (
 // so that scenario code is written once. It only forwards to the public API
 // (plus the white-box store handle for the monitors).
 type anyCache struct {
-	kind string
-	c    *theine.Cache[int, int64]
-	lc   *theine.LoadingCache[int, int64]
-	hc   *theine.HybridCache[int, int64]
-	hlc  *theine.HybridLoadingCache[int, int64]
-	sec  *monSecondary[int, int64]
+	kind    string
+	c       *theine.Cache[int, int64]
+	lc      *theine.LoadingCache[int, int64]
+	hc      *theine.HybridCache[int, int64]
+	hlc     *theine.HybridLoadingCache[int, int64]
+	sec     *monSecondary[int, int64]
 	workers int
 	route   string // which builder route made it
 }
